@@ -165,6 +165,12 @@ func (c *Chunker) Next() (uint64, []byte, error) {
 	if len(c.buf) < int(c.max) {
 		m = len(c.buf)
 	}
+	// No room for the rolling hash to find a boundary (min == max): cut at max. The
+	// scan below looks at one more byte before it tests the size and would return
+	// chunks of max+1 bytes.
+	if int(c.min) >= m {
+		return c.split(m, nil)
+	}
 
 	// Initialize the rolling hash window with the ChunkerWindowSize bytes
 	// immediately prior to min size
